@@ -33,6 +33,8 @@ pub const KINDS: &[&str] = &[
     // records that disagree with an earlier kind at the same time / for the same key (whatever sits between them —
     // a header, a comment, a blank line — must not decide which one wins)
     "10,400,4,2,0,50,1,1", "10,-50,4,2,0,60,0,0", "Mode: 3", "Title:other", "Combo1: 9,9,9", "OSU FILE FORMAT V9", "osu File Format v9",
+    // bracketed names a tool or a later format might use: none of them is a section
+    "[Fonts]", "[Storyboard]", "[Skin]", "[Scores]", "[TimingPoint]", "[Timing Points]", "[Objects]", "[Editor ]", "[Info]",
 ];
 
 /// Characters whose UTF-16 code units contain the byte 0x0A (or 0x0D): framing must not be confused by them.
